@@ -228,12 +228,60 @@ def pySorted (xs : List α) : Except Err (List α) :=
 
 end Sorting
 
+/-! ### the same algorithm with a total Bool comparison (used for sorting digests) -/
+
+section Pure
+variable {α : Type} (ltb : α → α → Bool)
+
+def runAscB : α → List α → Nat
+  | _, [] => 0
+  | prev, x :: rest => if ltb x prev then 0 else runAscB x rest + 1
+
+def runDescB : α → List α → Nat
+  | _, [] => 0
+  | prev, x :: rest => if ltb x prev then runDescB x rest + 1 else 0
+
+def countRunB : List α → Nat × Bool
+  | [] => (0, false)
+  | [_] => (1, false)
+  | a :: b :: rest => if ltb b a then (runDescB ltb b rest + 2, true) else (runAscB ltb b rest + 2, false)
+
+def bposB (pivot : α) : Nat → List α → Nat
+  | 0, _ => 0
+  | fuel + 1, seg =>
+    match seg.drop (seg.length / 2) with
+    | [] => 0
+    | x :: right =>
+      if ltb pivot x then bposB pivot fuel (seg.take (seg.length / 2))
+      else seg.length / 2 + 1 + bposB pivot fuel right
+
+def binsertB (sorted : List α) (pivot : α) : List α :=
+  sorted.take (bposB ltb pivot sorted.length sorted) ++ pivot :: sorted.drop (bposB ltb pivot sorted.length sorted)
+
+def binarySortB (sorted : List α) : List α → List α
+  | [] => sorted
+  | x :: rest => binarySortB (binsertB ltb sorted x) rest
+
+def pySortedB (xs : List α) : List α :=
+  if xs.length < 2 then xs else
+    let nd := countRunB ltb xs
+    let run := if nd.2 then (xs.take nd.1).reverse else xs.take nd.1
+    binarySortB ltb run (xs.drop nd.1)
+
+end Pure
+
+/-- `sorted(digests)`: byte strings in lexicographic order (`bytes.__lt__` is a total order, so the result is THE sorted
+    permutation whatever algorithm computes it) -/
+def sortDigests (ds : List Bytes) : List Bytes := pySortedB bytesLt ds
+
 /-! ### the pre-hash structure -/
 
 inductive Pre where
   | lit (b : Bytes)
   | node (id : Nat) (parts : List Pre)   -- `hash_single(obj)`, `id = 0`: an object without tracked identity
   | ref (id : Nat)                        -- `hash_single` of an object that is being hashed further up
+  | sorted (elems : List Pre)             -- `sorted(hash_single(item) for item in obj)`: evaluated in the given
+                                          -- (iteration) order, emitted in the order of the resulting byte strings
 
 def Pre.isNode : Pre → Bool
   | .node .. => true
@@ -311,9 +359,10 @@ def pre : PyVal → Except Err Pre
     let ps ← preList xs
     pure (.node id (lit (seqOpenLit k) :: ps ++ [lit (seqCloseLit k)]))
   | .set id fr xs => do
+    -- the elements are hashed in iteration order and their digests are sorted (fix 847ae56e; before: `sorted(obj)`,
+    -- see `sortedByValue` below)
     let ps ← preList xs
-    let sorted ← pySorted (fun a b => pyLt a.1 b.1) (xs.zip ps)
-    pure (.node id (lit (setName fr ++ HashLits.setOpen) :: sorted.map (·.2) ++ [lit HashLits.setClose]))
+    pure (.node id [lit (setName fr ++ HashLits.setOpen), .sorted ps, lit HashLits.setClose])
   | .dict id items => do
     let ps ← preItems items
     let sorted ← pySorted (fun a b => scalarLt a.1 b.1) ps
@@ -359,6 +408,11 @@ def preItems : List (Scalar × PyVal) → Except Err (List (Scalar × Pre))
     pure ((k, p) :: ps)
 end
 
+/-- The OLD set serializer (before fix 847ae56e) ordered the elements with `sorted(obj)`, i.e. with Python's `<` on
+    the values themselves.  Kept for the witness theorems that document defect D6 (`C08_witness_partial_order`,
+    `C07_witness_xor`, `C07_witness_xor_none`); the live model above no longer uses it. -/
+def sortedByValue (xs : List PyVal) : Except Err (List PyVal) := pySorted pyLt xs
+
 /-! ### evaluation of a pre-hash structure -/
 
 section Eval
@@ -370,9 +424,13 @@ def evalPure : Pre → Bytes
   | .lit b => b
   | .node _ ps => H (evalPureList ps)
   | .ref _ => HashLits.placeholder
+  | .sorted ps => (sortDigests (evalPureEach ps)).flatten
 def evalPureList : List Pre → Bytes
   | [] => []
   | p :: ps => evalPure p ++ evalPureList ps
+def evalPureEach : List Pre → List Bytes
+  | [] => []
+  | p :: ps => evalPure p :: evalPureEach ps
 end
 
 /-- `Cache._hashes`: id → digest, newest binding first. -/
@@ -387,6 +445,9 @@ mutual
 def evalMemo : Pre → Memo → Bytes × Memo
   | .lit b, m => (b, m)
   | .ref i, m => ((m.find i).getD HashLits.placeholder, m)
+  | .sorted ps, m =>
+    let r := evalMemoEach ps m
+    ((sortDigests r.1).flatten, r.2)
   | .node i ps, m =>
     if i = 0 then
       let r := evalMemoList ps m
@@ -403,6 +464,12 @@ def evalMemoList : List Pre → Memo → Bytes × Memo
     let r := evalMemo p m
     let rs := evalMemoList ps r.2
     (r.1 ++ rs.1, rs.2)
+def evalMemoEach : List Pre → Memo → List Bytes × Memo
+  | [], m => ([], m)
+  | p :: ps, m =>
+    let r := evalMemo p m
+    let rs := evalMemoEach ps r.2
+    (r.1 :: rs.1, rs.2)
 end
 
 /-- `hash_object(v, cache)` continuing with an existing memo. -/
